@@ -1,3 +1,65 @@
-// harness child module of src/mqtt/connection/packet_id_manager.rs
+// Child module of src/mqtt/connection/packet_id_manager.rs
+// C08 (i): identifier management over an arbitrary valid allocator state (<= 3 free runs inside 1..=65535).
 #[allow(unused_imports)]
 use super::*;
+use crate::mqtt::common::value_allocator_verif::mk_alloc_u16;
+
+fn free_in(ivs: &[(u16, u16); 3], n: usize, q: u16) -> bool {
+    let mut r = false;
+    let mut i = 0;
+    while i < n {
+        if ivs[i].0 <= q && q <= ivs[i].1 {
+            r = true;
+        }
+        i += 1;
+    }
+    r
+}
+
+#[kani::proof]
+#[kani::unwind(8)]
+fn c08_pidman_step_u16() {
+    let n: usize = kani::any();
+    kani::assume(n <= 3);
+    let ivs: [(u16, u16); 3] = kani::any();
+    let mut i = 0;
+    while i < n {
+        kani::assume(1 <= ivs[i].0 && ivs[i].0 <= ivs[i].1);
+        if i > 0 {
+            kani::assume((ivs[i - 1].1 as u32) + 1 < ivs[i].0 as u32);
+        }
+        i += 1;
+    }
+    let mut m = PacketIdManager::<u16> { allocator: mk_alloc_u16(1, u16::MAX, &ivs[..n]) };
+    let q: u16 = kani::any(); // universal probe
+    let was_used = q != 0 && !free_in(&ivs, n, q);
+    assert!(m.is_used_id(q) == was_used, "[C08] an id is in use exactly when it is in 1..=max and not free (0 is never in use)");
+    let op: u8 = kani::any();
+    kani::assume(op <= 2);
+    let x: u16 = kani::any();
+    if op == 0 {
+        match m.acquire_unique_id() {
+            Ok(id) => {
+                kani::cover!(id == u16::MAX, "the maximum identifier can be handed out");
+                assert!(n > 0 && id != 0 && free_in(&ivs, n, id), "[C08] acquire never hands out an identifier that is in use");
+                assert!(m.is_used_id(id), "[C08] an acquired identifier is in use");
+                assert!(m.is_used_id(q) == (was_used || q == id), "[C08] acquire changes only the acquired identifier");
+            }
+            Err(e) => {
+                kani::cover!(true, "exhaustion reported");
+                assert!(n == 0 && e == MqttError::PacketIdentifierFullyUsed, "[C08] exhaustion is reported only when every identifier 1..=max is in use");
+            }
+        }
+    } else if op == 1 {
+        let r = m.register_id(x);
+        assert!(r.is_ok() == (x != 0 && free_in(&ivs, n, x)), "[C08] register succeeds exactly for free identifiers in 1..=max");
+        assert!(m.is_used_id(q) == (was_used || (r.is_ok() && q == x)), "[C08] register changes only its own identifier");
+    } else {
+        // release is only reached for identifiers that are in use (every call site guards with is_used_id)
+        kani::assume(m.is_used_id(x));
+        m.release_id(x);
+        assert!(!m.is_used_id(x), "[C08] a released identifier is free");
+        assert!(m.is_used_id(q) == (was_used && q != x), "[C08] release changes only its own identifier");
+    }
+    core::mem::forget(m);
+}
